@@ -871,12 +871,34 @@ class Trial:
                 self._drop_unusable_reference(s)
                 if s not in self.acked and s in ("rise", "recession"):
                     self.do_op(s, op_argv(s, self.knobs, self.load_argv), None)
+        self.check_liveness()
         self.stats["histories"] += 1
         if len(self.acked) == len(STEPS):
             self.stats["histories_all_steps_completed"] += 1
 
+    def check_liveness(self):
+        """I6 (bounded liveness, evaluated once faults have stopped and every
+        unfinished step has been retried fault free): a step that completes in
+        a clean history of the same dataset and arguments must have completed
+        here too -- failed attempts may not make a step impossible."""
+        if any(c > 1 for c in self.ack_count.values()) or not getattr(self, "loaded_ok", True):
+            return
+        clean = os.path.join(self.dir, "clean.sqlite")
+        _copy_with_sidecars(self.base, clean)
+        completes = []
+        for s in CANON_ORDER:
+            argv = self.acked.get(s) or op_argv(s, self.knobs, self.load_argv)
+            ex = execute(clean, list(argv), dict(self.knobs, cache_pages=None), None, self.dir)
+            if ex.outcome.ok:
+                completes.append(s)
+        self.stats["I6_liveness_checked"] += 1
+        missing = [s for s in completes if s not in self.acked]
+        if missing:
+            raise Violation("I6-step-completes-in-a-clean-history-but-not-after-failed-attempts",
+                            {"op_index": len(self.ops) - 1, "steps": missing, "completed_here": sorted(self.acked)})
+
     # -- replay ---------------------------------------------------------------
-    def run_ops(self, ops):
+    def run_ops(self, ops, liveness=False):
         self.logline("replay", len(ops))
         first = ops[0]
         self.do_load(first.get("fault"))
@@ -885,6 +907,8 @@ class Trial:
             expect = pending if (rec.get("retry_of_previous") and pending is not None) else None
             _ex, pending = self.do_op(rec["op"], rec["argv"], rec.get("fault"), expect=expect,
                                       defer=bool(rec.get("defer_recovery")))
+        if liveness:
+            self.check_liveness()
 
     def replay_record(self, violation):
         ops = [dict(rec) for rec in self.ops]
@@ -892,6 +916,7 @@ class Trial:
             "property": "C20", "seed": self.seed, "dataset": self.spec, "knobs": self.knobs,
             "fault_rate": self.fault_rate, "layers": self.layers, "ops": ops,
             "violation": {"class": violation.cls, "op_index": violation.detail.get("op_index")},
+            "liveness": violation.cls.startswith("I6"),
             "log_digest": runner.digest(self.log),
         }
 
@@ -910,7 +935,7 @@ def replay_ops(rep, directory):
     trial = Trial(rep.get("seed", 0), directory, spec=rep["dataset"], knobs=dict(rep["knobs"]),
                   fault_rate=rep.get("fault_rate", 0.0), layers=list(rep.get("layers", ["A"])))
     try:
-        trial.run_ops(rep["ops"])
+        trial.run_ops(rep["ops"], liveness=bool(rep.get("liveness")))
     except Violation as v:
         return trial, v
     return trial, None
@@ -1157,7 +1182,8 @@ RULE = (
     "syscall x {EIO, ENOSPC, kill-before, kill-after, short}, a stride of interrupt positions and the three lock "
     "kinds. Invariants I1-I5 after every op. A case is non-trivial when the fault actually fired; distinct = "
     "distinct (abstract state = set of completed steps, op, fault layer:kind, phase of the step in thirds, "
-    "resulting state pre/post)."
+    "resulting state pre/post). I6 (bounded liveness): once faults stop, every step that completes in a clean "
+    "history completes here."
 )
 
 ASSUMPTIONS = [
